@@ -434,6 +434,9 @@ static vf::Result run_case(const Case &c, vf::Stats *st, RunInfo *info_out = nul
 		if (got != want) FAIL("C02:add-rc", std::string(what) + " " + r.str() + " returned " + std::to_string(got) + ", model says " + std::to_string(want));
 	};
 
+	// the reason array of one query is handed to the next one in half of the cases (the API re-uses / re-sizes the caller's array)
+	struct pfx_record *carry = nullptr;
+	unsigned int carry_len = 0;
 	for (size_t oi = 0; oi < c.ops.size() && res.ok; oi++) {
 		const Op &p = c.ops[oi];
 		std::string tag = "op#" + std::to_string(oi) + " " + p.kind;
@@ -664,6 +667,7 @@ static vf::Result run_case(const Case &c, vf::Stats *st, RunInfo *info_out = nul
 			enum pfxv_state r1 = (enum pfxv_state)99, r2 = (enum pfxv_state)99, r3 = (enum pfxv_state)99;
 			struct pfx_record *reason = nullptr;
 			unsigned int rlen = 0;
+			if ((p.tail[0] & 1) && carry) { reason = carry; rlen = carry_len; carry = nullptr; carry_len = 0; if (st) st->cls("q-with-reused-reason-array"); }
 			int rc1 = pfx_table_validate(&tab, asn, &ip, len, &r1);
 			int rc2 = pfx_table_validate_r(&tab, &reason, &rlen, asn, &ip, len, &r2);
 			int rc3 = rtr_mgr_validate(&cfg, asn, &ip, len, &r3);
@@ -690,13 +694,16 @@ static vf::Result run_case(const Case &c, vf::Stats *st, RunInfo *info_out = nul
 					else if (!hasmatch) FAIL("C01:reason-valid-match", qs + " VALID: no matching record among the reasons");
 				}
 			}
-			free(reason);
+			free(carry);
+			carry = reason;
+			carry_len = rlen;
 			break;
 		}
 		default: break;
 		}
 	}
 	// destruction: every remaining record must be reported as removed
+	free(carry);
 	pfx_table_free(&tab);
 	if (res.ok) {
 		if (ctx.mirror_bad) FAIL("C09:spurious-callback", ctx.mirror_msg + " (final pfx_table_free)");
